@@ -54,7 +54,7 @@ Log(r) == /\ last' = r.op
              ELSE hist' = hist
 
 Init == /\ kv = EmptyKV /\ dur = EmptyKV /\ ck = EmptyKV
-        /\ st = [clean |-> TRUE, saved |-> FALSE, commits |-> 0, gcs |-> 0] /\ hist = <<>> /\ last = "init"
+        /\ st = [clean |-> TRUE, saved |-> FALSE, mark |-> FALSE, commits |-> 0, gcs |-> 0] /\ hist = <<>> /\ last = "init"
 
 Update(k, v) == /\ kv' = KPut(kv, k, v, Wt[v]) /\ st' = [st EXCEPT !.clean = FALSE]
                 /\ Log(Rec("update", k, v, 0)) /\ UNCHANGED <<dur, ck>>
@@ -78,22 +78,26 @@ Reload       == /\ st.clean /\ st' = [st EXCEPT !.saved = FALSE]
                 /\ Log(Rec("reload", 0, "", 0)) /\ UNCHANGED <<kv, dur, ck>>
 ReadRoot     == Log(Rec("readroot", 0, "", 0)) /\ UNCHANGED <<kv, dur, ck, st>>
 Owners       == Log(Rec("owners", 0, "", 0)) /\ UNCHANGED <<kv, dur, ck, st>>
-SaveRoot     == /\ st.clean /\ ck' = kv /\ st' = [st EXCEPT !.saved = TRUE, !.commits = 0]
+SaveRoot     == /\ st.clean /\ ck' = kv /\ st' = [st EXCEPT !.saved = TRUE, !.mark = FALSE, !.commits = 0]
                 /\ Log(Rec("saveroot", 0, "", 0)) /\ UNCHANGED <<kv, dur>>
-Rollback(how) == /\ st.clean /\ st.saved /\ st.commits = 1 /\ st.gcs <= 1
+\* a checkpoint kept by the CALLER (root hash and weight of the clean trie) without telling the trie: only RollbackTrie can
+\* return to it (history token: saveroot with level 1)
+Mark         == /\ st.clean /\ ck' = kv /\ st' = [st EXCEPT !.saved = TRUE, !.mark = TRUE, !.commits = 0]
+                /\ Log(Rec("saveroot", 0, "", 1)) /\ UNCHANGED <<kv, dur>>
+Rollback(how) == /\ st.clean /\ st.saved /\ st.commits = 1 /\ st.gcs <= 1 /\ (st.mark => how = "rollbacktrie")
                  /\ kv' = ck /\ dur' = ck /\ st' = [st EXCEPT !.saved = FALSE]
                  /\ Log(Rec(how, 0, "", 0)) /\ UNCHANGED ck
 
 Next ==
   \/ \E k \in Keys : (\E v \in Vals : Update(k, v)) \/ Delete(k) \/ (\E w \in ReW : Reweigh(k, w))
   \/ \E lv \in {0, 1, 3} : Commit(lv)
-  \/ GC \/ Reload \/ ReadRoot \/ Owners \/ SaveRoot \/ Rollback("rollback") \/ Rollback("rollbacktrie")
+  \/ GC \/ Reload \/ ReadRoot \/ Owners \/ SaveRoot \/ Mark \/ Rollback("rollback") \/ Rollback("rollbacktrie")
 
 \* the storage protocol only (updates, deletes, one commit level, staged garbage collection, checkpoint, rollback):
 \* deep exhaustive generation over a tiny content space
 NextGC ==
   \/ \E k \in Keys : (\E v \in Vals : Update(k, v)) \/ Delete(k)
-  \/ Commit(0) \/ GC \/ SaveRoot \/ Rollback("rollback") \/ Rollback("rollbacktrie")
+  \/ Commit(0) \/ GC \/ SaveRoot \/ (~st.saved /\ Mark) \/ Rollback("rollback") \/ Rollback("rollbacktrie")
 SpecGC == Init /\ [][NextGC]_wvars
 
 Spec == Init /\ [][Next]_wvars
